@@ -65,3 +65,12 @@ func LoopsOf(fn *ssa.Function) []LoopInfo {
 	}
 	return out
 }
+
+// Untracked: the goal, which the facts of block b do not entail, depends on (or is known only through) a value
+// outside the tracked memory model (untracked.go).
+func (a *FuncAn) Untracked(b *ssa.BasicBlock, g Lin) (string, bool) {
+	if why, un := a.untrackedIn(g); un {
+		return why, true
+	}
+	return a.untrackedNear(b, g)
+}
